@@ -246,7 +246,8 @@ def run_case(case):
                     level, text = "stochastic", st.to_text(True, sp, True)
                 else:
                     level, text = "molecule", m.to_text(True, sp, rng.random() < 0.05)
-            c = roundtrip(level, text, cnt, viol, nt, rng, do_generate=rng.random() < 0.12 and not (level != "system" and big))
+            lt_ext = level != "system" and any(isinstance(e, StochAst) and e.left.weight is not None for e in m.elements)  # weights / lists on a left terminal travel to the prefix
+            c = roundtrip(level, text, cnt, viol, nt, rng, do_generate=rng.random() < (0.6 if lt_ext else 0.12) and not (level != "system" and big))
             if sample is None and c:
                 sample = {"level": level, "text": text, "canonical": c}
     else:
